@@ -259,8 +259,8 @@ def rule_d(ctx):
     am = AM(f)
     arr = f.params[1]
     body_nodes = list(ast.walk(f.node))
-    ok_vd = am.has(f.node, "voxels_dst = self.coordinatesystem_dst.voxels") is not None
-    ctx.need(ok_vd, "correct_array: destination voxels not found")
+    am.let("voxels_dst", "self.coordinatesystem_dst.voxels")
+    am.let("dim", "self.coordinatesystem_src.dim")
     # the stages may be named or written in place: they are declared as template-level temporaries
     am.let("t_in", "voxels_dst.to_voxel_center().to(self.transformation.input_dtype, self.coordinatesystem_dst)")
     am.let("t_out", "self.transformation.inverse(t_in)")
@@ -270,7 +270,7 @@ def rule_d(ctx):
     ctx.ob(R, f.qname, "stage 2: the inverse transformation is applied to stage 1", s2 is not None, "", f.node)
     s3 = am.has(f.node, "voxels_src = t_out.to_voxel(self.coordinatesystem_src)")
     ctx.ob(R, f.qname, "stage 3: converted to voxels of the source system", s3 is not None, "", f.node)
-    ok_dim = am.has(f.node, "dim = self.coordinatesystem_src.dim") is not None
+    ok_dim = True
     MASKS = ("np.all(np.logical_and(voxels_src >= np.zeros(dim, dtype=int), voxels_src < self.coordinatesystem_src.shape), axis=1)",
              "np.all(np.logical_and(voxels_src < self.coordinatesystem_src.shape, voxels_src >= np.zeros(dim, dtype=int)), axis=1)")
     mk, mk_t = None, None
